@@ -197,6 +197,8 @@ def gen_case(ctx, fmt=None):
         case['integer_charge'] = sel.get('pick', 0) % 3 == 0
     if rng.random() < 0.25:
         sel['names'] = True
+    if (fmt.startswith('rwms') or fmt in ('qtop_openqcd', 'qtop_sfqcd', 'energy')) and rng.random() < 0.3:
+        sel['files_order'] = rng.getrandbits(16)
     if fmt in ('sfcf_c', 'sfcf_o') and rng.random() < 0.5:
         sel['files'] = rng.getrandbits(16)
     case['sel'] = sel
@@ -258,6 +260,26 @@ def sort_key(r):
     return r
 
 
+def apply_files_order(ctx, case, info, rs, k2):
+    """explicit `files=` list in an order of the caller's choosing: the per-replica arguments (r_start, r_stop, names) follow that
+    order; the result is the same observable whatever the order"""
+    fo = case['sel'].get('files_order')
+    if fo is None or len(rs) < 2:
+        return k2
+    order = list(rs)
+    _random.Random(fo).shuffle(order)
+    if order == list(rs):
+        order = order[::-1]
+    pos = {r: i for i, r in enumerate(rs)}
+    k3 = dict(k2)
+    k3['files'] = [info['files'][r][0] for r in order]
+    for key in ('r_start', 'r_stop', 'names'):
+        if key in k3:
+            k3[key] = [k3[key][pos[r]] for r in order]
+    ctx.count('explicit-files-in-caller-order')
+    return k3
+
+
 def read_and_expect(ctx, case, root, info):
     """returns list of (label, got_table, expected_table)"""
     fmt = case['fmt']
@@ -282,7 +304,7 @@ def read_and_expect(ctx, case, root, info):
                 k2['r_stop'] = rstop
             if rstep != 1:
                 k2['r_step'] = rstep
-            res = oq.read_rwms(root, 'ensA', version=ver, **k2)
+            res = oq.read_rwms(root, 'ensA', version=ver, **apply_files_order(ctx, case, info, rs, k2))
             for k in range(len(case['nsrc'])):
                 exp = {}
                 for r, s0, s1 in zip(rs, rstart, rstop):
@@ -325,7 +347,7 @@ def read_and_expect(ctx, case, root, info):
             ic = bool(case.get('integer_charge'))
             if ic:
                 k2['integer_charge'] = True      # documented: the charge of each configuration rounded to the nearest integer
-            res = oq.read_qtop(root, 'ensA', cc, version='openQCD', L=case['L'], **k2)
+            res = oq.read_qtop(root, 'ensA', cc, version='openQCD', L=case['L'], **apply_files_order(ctx, case, info, rs, k2))
             exp = {}
             tm, nn = case['tmax'], case['nn']
             for r, s0, s1 in zip(rs, rstart, rstop):
@@ -343,7 +365,7 @@ def read_and_expect(ctx, case, root, info):
             if rstep != 1:
                 k2['r_step'] = rstep
             xmin = 1
-            E = oq._extract_flowed_energy_density(root, 'ensA', 1, xmin, case['L'], **k2)
+            E = oq._extract_flowed_energy_density(root, 'ensA', 1, xmin, case['L'], **apply_files_order(ctx, case, info, rs, k2))
             tm = case['tmax']
             keys = sorted(E)
             for n in range(case['nn'] + 1):
@@ -393,7 +415,7 @@ def read_and_expect(ctx, case, root, info):
             ic = bool(case.get('integer_charge'))
             if ic:
                 k2['integer_charge'] = True
-            res = oq.read_qtop(root, 'ensA', cc, version='sfqcd', **k2)
+            res = oq.read_qtop(root, 'ensA', cc, version='sfqcd', **apply_files_order(ctx, case, info, rs, k2))
             exp = {}
             for r, s0, s1 in zip(rs, rstart, rstop):
                 idx = select(cls[r], s0, s1, 1)
